@@ -1,6 +1,7 @@
 package props
 
 import (
+	"unsafe"
 	"bufio"
 	"encoding/json"
 	"fmt"
@@ -97,6 +98,44 @@ func c08Build(rng *rand.Rand, nHot, nCold, rounds, hotBlock int) *c08Hist {
 			v.Elem().Field(0).SetInt(int64(j * 3))
 			vals = append(vals, v)
 		}
+		h.HotVals = append(h.HotVals, vals)
+	}
+	// fields of kinds a validator rarely meets (func, chan, complex, interface, unsafe pointer, map of scalars, byte
+	// array), each under required for every tag name: a cached analysis must not lose what a fresh one sees
+	{
+		rq := func(n string) reflect.StructTag {
+			return reflect.StructTag(fmt.Sprintf(`valid:"required|m_%s" a:"required|m_%s_a" b:"required|m_%s_b"`, n, n, n))
+		}
+		rare := reflect.StructOf([]reflect.StructField{
+			{Name: "Fn", Type: reflect.TypeOf((func())(nil)), Tag: rq("fn")},
+			{Name: "Ch", Type: reflect.TypeOf((chan int)(nil)), Tag: rq("ch")},
+			{Name: "Cx", Type: reflect.TypeOf(complex128(0)), Tag: rq("cx")},
+			{Name: "If", Type: reflect.TypeOf((*interface{})(nil)).Elem(), Tag: rq("if")},
+			{Name: "Up", Type: reflect.TypeOf(unsafe.Pointer(nil)), Tag: rq("up")},
+			{Name: "Mp", Type: reflect.TypeOf(map[string]int(nil)), Tag: rq("mp")},
+			{Name: "By", Type: reflect.TypeOf([2]byte{}), Tag: rq("by")},
+			{Name: "N", Type: gen.TInt, Tag: `valid:"ge=1|m_rare_n" a:"le=2|m_rare_n_a"`},
+		})
+		vals := []reflect.Value{}
+		for j := 0; j < 3; j++ {
+			v := reflect.New(rare)
+			e := v.Elem()
+			e.Field(7).SetInt(int64(j * 2))
+			if j >= 1 {
+				x := 1
+				e.Field(0).Set(reflect.ValueOf(func() {}))
+				e.Field(2).SetComplex(complex(1, 2))
+				e.Field(4).SetPointer(unsafe.Pointer(&x))
+				e.Field(6).Set(reflect.ValueOf([2]byte{0, 7}))
+			}
+			if j == 1 {
+				e.Field(1).Set(reflect.ValueOf(make(chan int)))
+				e.Field(3).Set(reflect.ValueOf("x"))
+				e.Field(5).Set(reflect.ValueOf(map[string]int{"k": 1}))
+			}
+			vals = append(vals, v)
+		}
+		h.HotTypes = append(h.HotTypes, rare)
 		h.HotVals = append(h.HotVals, vals)
 	}
 	// named types in a reference cycle (a list node, a parent <-> child pair): whatever the cache
